@@ -654,3 +654,39 @@ func TestLongLivedConnection(t *testing.T) {
 	chkLongA.Rapid(t, harness.Pick(8, 120))
 	chkLongB.Rapid(t, harness.Pick(1, 12))
 }
+
+// TestFullReads: pipelined requests that fill the server's reads exactly (the connection reads into a 300-byte array; net.Pipe hands
+// over one write as one read up to that size): 12-byte requests written 24, 25, 26, 50 and 75 at a time, as the whole stream and
+// followed by further traffic. Nothing is special about 300 bytes as far as the protocol goes.
+func TestFullReads(t *testing.T) {
+	idx := 0
+	for _, level := range []string{"A", "B"} {
+		for _, per := range []int{24, 25, 26, 50, 75} {
+			for _, writes := range []int{1, 2, 3} {
+				for _, tail := range []int{0, 1, 7} {
+					idx++
+					if !harness.Mine(idx) {
+						continue
+					}
+					c := segCase{Level: level, DevSeed: uint64(idx) + harness.Seed()}
+					n := per*writes + tail
+					for i := 0; i < n; i++ {
+						c.Requests = append(c.Requests, spec.Req{FC: 3 + uint8(i%2), Unit: uint8(1 + i%5), Tx: uint16(i), Addr: uint16(3 * i), Qty: 1 + uint16(i%4)})
+					}
+					for w := 1; w <= writes; w++ {
+						if w*per*12 < n*12 {
+							c.Cuts = append(c.Cuts, w*per*12)
+						}
+					}
+					chk := chkA
+					if level == "B" {
+						chk = chkB
+					}
+					if !chk.Eval(t, c) {
+						return
+					}
+				}
+			}
+		}
+	}
+}
